@@ -49,6 +49,10 @@ fn main() {
             }
             std::process::exit(props::run_check(&id, tier));
         }
+        "trickle" => {
+            let n: usize = args.get(2).and_then(|s| s.parse().ok()).unwrap_or(65536);
+            std::process::exit(props::c04::trickle_main(n));
+        }
         "replay" => {
             let path = args.get(2).cloned().unwrap_or_else(|| usage());
             std::process::exit(replay(&path));
